@@ -500,7 +500,11 @@ func freshEncoderOutput(x *Ctx) {
 		for _, v := range sel {
 			r := v.Results()[0]
 			ct, _ := paths.CallOf(r)
-			if ct == nil || ct.Name != "github.com/ipld/go-ipld-prime.Encode" || !strings.HasSuffix(r.String(), "#0") {
+			switch {
+			case ct != nil && ct.Name == "github.com/ipld/go-ipld-prime.Encode" && strings.HasSuffix(r.String(), "#0"):
+			case ct != nil && ct.Name == "(*bytes.Buffer).Bytes" && len(ct.Args) == 1 && ct.Args[0].Op == "alloc":
+				// the bytes of a buffer that is a local variable of this call (what ipld.Encode does itself)
+			default:
 				ok = false
 				detail += "returns " + r.String() + "\n"
 			}
